@@ -319,7 +319,7 @@ class C09Engine(Engine):
         return ["probe.arrival_order_differs_from_submission", "probe.delivered_before_iterator_exhausted",
                 "probe.prior_used_log_lin_log", "probe.same_options_under_3_thread_counts",
                 "probe.shared_prior_reused", "probe.repeat_call", "probe.cache_file_written",
-                "probe.approx_prior_warm_vs_cold"]
+                "probe.approx_prior_warm_vs_cold", "probe.big_pool_more_than_100_keys"]
 
     # ------------------------------------------------------------------
     # ------------------------------------------------------------------
@@ -505,6 +505,12 @@ class C09Engine(Engine):
                 kind = tape.pick("op", ["date", "date", "date", "build", "repeat", "clock", "vgamma", "date"])
                 if opi == 0 and tape.chance("start_with_build", 0.7):
                     kind = "build"
+                if opi == n_ops - 1 and tape.chance("big_pool_call", 0.12):
+                    v = self.big_pool_call(tape, M, stats, log)
+                    if v:
+                        res["violations"].append(v)
+                        break
+                    continue
                 if kind == "clock":
                     dt = tape.pick("dt", [3600.0, -1e6, 0.5, 86400.0 * 400, -3.0])
                     clk.advance(dt)
@@ -556,6 +562,48 @@ class C09Engine(Engine):
                                  or stats.get("probe.shared_prior_reused") or stats.get("probe.repeat_call"))
         res["states"].append(log.digest())
         return res
+
+    def big_pool_call(self, tape, M, stats, log):
+        """The pool with hundreds of distinct (mutations, span) jobs: the likelihood precalculation of a larger tree
+        sequence (20-40 samples, 30-300 trees) with num_threads in {2, 4} under SimMP must fill exactly the cache that
+        the serial path fills.  (The tiny inputs of the date() operations give the pool a dozen jobs at most.)"""
+        import msprime
+
+        n = tape.pick("big_n", [20, 30, 40])
+        rho = tape.pick("big_rho", [10.0, 40.0, 100.0])
+        seed = 1 + tape.choose("big_seed", 2**31 - 2)
+        L = 10000
+        ts = msprime.sim_ancestry(n, ploidy=1, population_size=1.0, sequence_length=L, recombination_rate=rho / L,
+                                  random_seed=seed)
+        ts = msprime.sim_mutations(ts, rate=tape.pick("big_theta", [20.0, 100.0]) / L / 4, random_seed=seed + 1)
+        discrete = M["discrete"]
+        timepoints = np.array([0.0, 0.05, 0.2, 0.5, 1.0, 2.0, 4.0, 9.0])
+        threads = tape.pick("big_threads", [2, 4])
+        space = tape.pick("big_space", ["Likelihoods", "LogLikelihoods"])
+        caches = []
+        for nt in (None, threads):
+            lik = getattr(discrete, space)(ts, timepoints, 0.01, None, eps=1e-6, fixed_node_set=set(ts.samples()))
+            lik.precalculate_mutation_likelihoods(num_threads=nt)
+            caches.append(lik.unfixed_likelihood_cache)
+        a, b = caches
+        stats["big_pool_calls"] += 1
+        if len(a) > 100:
+            stats["probe.big_pool_more_than_100_keys"] += 1
+        log.add("BIGPOOL", n, rho, seed, threads, space, len(a))
+        bad = None
+        if set(a) != set(b):
+            bad = f"key sets differ ({len(a)} vs {len(b)})"
+        else:
+            for k in a:
+                if a[k] is None or b[k] is None or not np.array_equal(np.asarray(a[k]), np.asarray(b[k]), equal_nan=True):
+                    bad = f"the likelihood array stored for key (mutations, span)={k} differs"
+                    break
+        if bad:
+            return violation("pool-cache-differs-from-serial", f"precalculate_mutation_likelihoods+pool:{space}",
+                             f"{space}.precalculate_mutation_likelihoods(num_threads={threads}) on a tree sequence with "
+                             f"{ts.num_samples} samples / {ts.num_trees} trees / {len(a)} distinct (mutations, span) keys "
+                             f"(msprime seed {seed}): {bad} compared with num_threads=None")
+        return None
 
     # ------------------------------------------------------------------
     def draw_prior_params(self, tape):
